@@ -10,6 +10,9 @@ rc_all = 0
 for sid in ids:
     d = os.path.join(VERIF, "seeded", sid)
     meta = json.load(open(os.path.join(d, "meta.json")))
+    if meta.get("neutralised_by"):
+        print(f"NEUTRALISED {sid:<28} (no longer breaks the property on the current tree: {meta['neutralised_by'][:90]}...)", flush=True)
+        continue
     in_repo = "--in-repo" in sys.argv
     scratch = None
     if in_repo:
